@@ -23,6 +23,16 @@ func (r *SplitMix64) Uint64() uint64 {
 
 func (r *SplitMix64) Uint32() uint32 { return uint32(r.Uint64() >> 32) }
 
+// nonzero is a uniform non-zero 32-bit value (0 is reserved on tapes for
+// "least disruptive choice").
+func (r *SplitMix64) nonzero() uint32 {
+	for {
+		if v := r.Uint32(); v != 0 {
+			return v
+		}
+	}
+}
+
 // Intn returns a value in [0,n). n<=0 yields 0.
 func (r *SplitMix64) Intn(n int) int {
 	if n <= 1 {
@@ -131,12 +141,12 @@ func FillTape(r *SplitMix64, n int, style int, param int) []uint32 {
 	switch style {
 	case FillUniform:
 		for i := range out {
-			out[i] = r.Uint32() | 1
+			out[i] = r.nonzero()
 		}
 	case FillSparse:
 		for i := range out {
 			if r.Intn(param) == 0 {
-				out[i] = r.Uint32() | 1
+				out[i] = r.nonzero()
 			}
 		}
 	case FillQuantum:
@@ -144,7 +154,7 @@ func FillTape(r *SplitMix64, n int, style int, param int) []uint32 {
 		for i < n {
 			i += r.Intn(2*param + 1)
 			if i < n {
-				out[i] = r.Uint32() | 1
+				out[i] = r.nonzero()
 				i++
 			}
 		}
@@ -160,7 +170,7 @@ func FillFaultTape(r *SplitMix64, n, num, den int) []uint32 {
 	}
 	for i := range out {
 		if r.Intn(den) < num {
-			out[i] = r.Uint32() | 1
+			out[i] = r.nonzero()
 		}
 	}
 	return out
